@@ -12,7 +12,7 @@ while IFS='|' read -r prop file expr what; do
   sed -i -z "$expr" $file 2>/dev/null || sed -i "$expr" $file
   if cmp -s $file /tmp/selftest_orig; then echo "NOCHANGE  $prop $what"; bad=$((bad+1)); continue; fi
   if [[ $file == *.go ]] && ! go build ./$(dirname $file)/ 2>/dev/null; then echo "NOCOMPILE $prop $what"; git checkout -- $file; bad=$((bad+1)); continue; fi
-  out=$(/verif/bin/gzv check -property $prop -no-evidence 2>&1); rc=$?
+  out=$(/verif/bin/gzv check -property $prop -no-evidence -no-replay 2>&1); rc=$?
   git checkout -- $file
   if [ $rc -eq 1 ]; then ok=$((ok+1)); echo "CAUGHT    $prop $what :: $(echo "$out" | grep '^failed' | head -1 | awk '{print $2}')"; else bad=$((bad+1)); echo "MISSED    $prop $what"; fi
 done < /verif/selftest/sed_mutants.txt
